@@ -53,6 +53,15 @@ Definition regions_of (loop kind n : Z) (m1 m2 : mesh) : list reg :=
     map (fun v1 => loop_operators_h_NonDiagonalBlock_N Z unit Z.add 0 (m_vertices m1) v1 (m_vertices m2) 1%nat pidx (m_adj m1) (m_adj m2) 1%nat pidx (fun _ _ => 0) noexn) (m_vertices m1)
   else if loop =? 8 then
     map (fun v1 => loop_operators_h_NonDiagonalBlock_N Z unit Z.add 0 (m_vertices m1) v1 (m_vertices m2) c a (m_adj m1) (m_adj m2) 2%nat pidx (fun _ _ => 0) noexn) (m_vertices m1)
+  else if loop =? 9 then
+    map (fun k => loop_assembleHeadMat_cpp_deflate Z unit Z.add 0 (m_vertices m1) k 1%nat pidx (fun _ _ => 0) noexn) (seq 0 (length (m_vertices m1)))
+  (* the three loops of operators.cpp (hook H1): rows offsetI = 3 of a 6-row Matrix; Vector targets *)
+  else if loop =? 11 then
+    [loop_operators_cpp_operatorFerguson Z unit Z.add 0 (m_vertices m1) 1%nat 3 n (fun _ _ => 0) (fun _ _ => 0) (fun _ _ => 0) noexn]
+  else if loop =? 12 then
+    [loop_operators_cpp_operatorDipolePotDer Z unit Z.add 0 (m_triangles m1) 1%nat (fun _ _ _ => 0) noexn]
+  else if loop =? 13 then
+    [loop_operators_cpp_operatorDipolePot Z unit Z.add 0 (m_triangles m1) 1%nat (fun _ _ => 0) noexn]
   else [].
 
 Definition run_c05 (w : wire) : wire :=
